@@ -19,14 +19,18 @@ import (
 	kproto "github.com/kardiachain/go-kardia/proto/kardiachain/types"
 )
 
-var vfKeyCache []*ecdsa.PrivateKey
-
-func vfKeys(n int) []*ecdsa.PrivateKey {
-	for len(vfKeyCache) < n {
-		k, _ := crypto.GenerateKey()
-		vfKeyCache = append(vfKeyCache, k)
+// vfKeys derives n validator keys from the case PRNG, so that a (seed, case) pair replays exactly
+// (addresses decide the validator order and hence the proposer rotation).
+func vfKeys(r *vfRand, n int) []*ecdsa.PrivateKey {
+	var ks []*ecdsa.PrivateKey
+	for len(ks) < n {
+		k, err := crypto.ToECDSA(crypto.Keccak256(r.Bytes(32)))
+		if err != nil {
+			continue
+		}
+		ks = append(ks, k)
 	}
-	return vfKeyCache[:n]
+	return ks
 }
 
 // vfPickConfig draws validator count, stakes and a faulty set with < 1/3 of the stake.
@@ -161,7 +165,7 @@ func TestVerifC01(t *testing.T) {
 		viol := ""
 		panicked := vfGuard(o, "panic-in-consensus", func() string { return desc }, func() {
 			var err error
-			net, err = vfNewNet(r, vfKeys(n), stake, byz)
+			net, err = vfNewNet(r, vfKeys(r, n), stake, byz)
 			if err != nil {
 				t.Fatalf("network construction failed: %v", err)
 			}
